@@ -146,3 +146,27 @@ CHECKS['C06'] = dict(
                        quick=_c06_runs([c for c in _c06_cfgs(2, 2, False) if c['threads'] == 2 and c['tasks'] == 2 and (not c['submitters'] or (c['flags'] in (0, 3) and c['wait'] == 1))], 1, 0, 100, 4, ['--prune', 1]),
                        thorough=_c06_runs(_c06_cfgs(2, 3, False), 2, 1, 1200, 4, ['--prune', 1]))],
 )
+
+
+SHIM_WRAP = '-Wl,' + ','.join('--wrap=' + f for f in (
+    'clock_gettime timerfd_create timerfd_settime close pipe dup epoll_create1 eventfd signalfd inotify_init1 syscall epoll_wait write read').split())
+ALL_LIBS = ['core', 'thpool', 'structs', 'mem', 'utils']
+
+
+def world_part(name, quick, thorough, **kw):
+    d = dict(name=name, harness='world', runner='worldx', sources=['harness/world.c', 'engine/shim.c'], libs=ALL_LIBS, variant='asan',
+             ldflags=[SHIM_WRAP], quick=quick, thorough=thorough)
+    d.update(kw)
+    return d
+
+
+def _w(prop, nmods, maxdev, depth, dl, k=1):
+    return ['--prop', prop, '--nmods', nmods, '--maxdev', maxdev, '--depth', depth, '--deadline', dl, '--k', k]
+
+
+CHECKS['SMOKE'] = dict(title='world smoke', parallel=1, parts=[world_part('w', quick=[_w('SMOKE', 2, 0, 4, 60)], thorough=[_w('SMOKE', 2, 0, 6, 300)])])
+
+CHECKS['C01'] = dict(title='module lifecycle', parallel=1,
+    parts=[world_part('w', quick=[_w('C01', 2, 1, 5, 150)], thorough=[_w('C01', 3, 2, 8, 1500, 2)])])
+CHECKS['C02'] = dict(title='pub/sub', parallel=1,
+    parts=[world_part('w', quick=[_w('C02', 2, 1, 5, 150)], thorough=[_w('C02', 3, 2, 7, 1500, 2)])])
